@@ -46,16 +46,15 @@ prop('C01', src='props/c01_roundtrip.cpp',
      rule='rapidcheck: (secret, birthday, enabled mask, user features, encrypted flag, coin, language, construction path create|load, keygen coin/size) from three sub-generators '
           '(uniform 80%; 15 data words drawn from the 1..48 longest words of ja/ko/fr/es 10%; 12-15 data words drawn from the 1275 indices where both Chinese lists hold the same character 10%). '
           'Oracle: encode -> decode_explicit(same coin, language) is OK and equal in store bytes, birthday, get_feature under 9 masks, is_encrypted and the recorded keygen KDF arguments; '
-          'decode (auto) is OK with the same language and seed, or MULT_LANG only if decode_explicit in another registered language does not answer LANG. '
+          'decode (auto) is OK with the same language and seed, or MULT_LANG only if decode_explicit in another registered language does not answer LANG. The first case of every worker is a cold start: a child forked before the process has made any checksum-related call decodes phrases the parent creates afterwards, one per language. '
           'Non-trivial = coin>2 or user features or encrypted or language in {ja,ko,es,fr} or ambiguous or NFKD length >= 300; distinct = FNV-1a of the serialised case.',
-     required_classes={'any': ['ambiguous(MULT_LANG)', 'long(internal>=300)', 'encrypted+userfeatures', 'coin>2', 'path:load', 'path:create']},
+     required_classes={'any': ['ambiguous(MULT_LANG)', 'long(internal>=300)', 'encrypted+userfeatures', 'coin>2', 'path:load', 'path:create', 'cold-start(decode is the first checksum-related call of a process)']},
      assumptions=['seeds are built through create(+crypt) or load of the model image; a case whose construction fails is discarded and counted'],
      technique='property-based testing (rapidcheck): generated seeds x languages x coins, encode/decode round-trip oracle under ASan+UBSan with real NFC/NFKD',
      level_text='Randomised exploration with three biased generators (uniform, longest Korean/Japanese words, Chinese-overlap words); every case compares the decoded seed with the original in all observable respects and checks the auto-detection verdict model-free. Sampling only: 2^165 seeds cannot be enumerated, so the level is exploration.')
 
 prop('C02', src='props/c02_checksum.cpp',
      plan={'quick': [{'variant': 'asan', 'workers': 16}], 'thorough': [{'variant': 'asan', 'workers': 16, 'timeout': 14400}]},
-     exhaustive=True,
      rule='(1) exhaustive arithmetic core: for every field element e (2048) and phrase position p (16) the phrase whose only non-zero data coefficient is e at p must validate with check word e*2^p (GF(2^11), x^11+x^2+1) and fail with two other check words; '
           '(2) rapidcheck phrases (seed x language x coin, words taken from the library via the coin-XOR table): every position x replacement word (all 2047 when full=1, every 8th / 64th otherwise), all <=120 swaps of unequal words, all 2048 check-word candidates, '
           'and the stored image with each of the 2047 other check values. Oracle: exactly CHECKSUM from decode_explicit, never OK from decode/load, exactly one validating check word. '
@@ -66,7 +65,6 @@ prop('C02', src='props/c02_checksum.cpp',
 
 prop('C03', src='props/c03_layout.cpp',
      plan={'quick': [{'variant': 'asan', 'workers': 16}], 'thorough': [{'variant': 'asan', 'workers': 16}, {'variant': 'rel', 'workers': 16}]},
-     exhaustive=True,
      rule='(i) exhaustive: all payloads of weight 0, 1 and 2 over the 164 holdable payload bits (150 secret, 4 feature bits, 10 birthday bits; the reserved feature bit cannot be held by any seed) x every registered language x coins {0,1,1024,2047}; '
           '(ii) rapidcheck random (secret, birthday, features, coin, language, enabled mask). Oracle: polyseed_encode output is byte-equal to the phrase of the independent reference model '
           '(bit-indexed packing, carry-less GF check value, coin XOR on word 2, golden word list, specification separator, NFC for es/fr/ja/ko), returned length = strlen, store bytes 30-31 = LE16(0x7000|check); '
@@ -77,7 +75,6 @@ prop('C03', src='props/c03_layout.cpp',
 
 prop('C05', src='props/c05_coin.cpp',
      plan={'quick': [{'variant': 'asan', 'workers': 16}], 'thorough': [{'variant': 'asan', 'workers': 16, 'timeout': 14400}]},
-     exhaustive=True,
      rule='(1) exhaustive coin table: for k seeds (2 quick / 24 thorough, language rotating with the seed) every ordered pair (A,B), A != B, of the 2048 coins: decode_explicit(phrase_A, B) = CHECKSUM, decode_explicit(phrase_A, A) = OK and the same seed; for a 1/64 sample also decode(auto) != OK and phrases for A and B differ in word 2 only; '
           '(2) rapidcheck random (seed, language, A, B) with one-bit, complementary and +1024 differences weighted. Each (seed, language, A, B) is one non-trivial case.',
      required_classes={'any': ['rows', 'pairs', 'coin-pairs']},
@@ -86,7 +83,6 @@ prop('C05', src='props/c05_coin.cpp',
 
 prop('C06', src='props/c06_storage.cpp',
      plan={'quick': [{'variant': 'asan', 'workers': 16}], 'thorough': [{'variant': 'asan', 'workers': 16}, {'variant': 'rel', 'workers': 16}]},
-     exhaustive=True,
      rule='(1) exhaustive field sweeps around 3 valid images: each header byte x 255 values, bytes 8-9 x 65536 (old and recomputed check value), padding bits x 8 masks, byte 29 x 256, bytes 30-31 x 65536, every secret bit flip (old and recomputed check); '
           '(2) rapidcheck buffers: 1-6 simultaneous field mutations (with/without recomputed check), valid images under random masks, random buffers with a valid header/frame, uniform random; (3) seed round trips. '
           'Oracle: load status equals the model verdict with precedence FORMAT > CHECKSUM > UNSUPPORTED; OK implies store(load(buf)) == buf and equal getters; store bytes equal the model image; no block left allocated on failure; input unmodified. '
@@ -115,7 +111,6 @@ prop('C04', src='props/c04_keygen.cpp',
 
 prop('C10', src='props/c10_features.cpp',
      plan={'quick': [{'variant': 'asan', 'workers': 16}], 'thorough': [{'variant': 'asan', 'workers': 16}, {'variant': 'rel', 'workers': 16}]},
-     exhaustive=True,
      rule='(1) exhaustive core: enabling argument in {0..7, 8, 16, 24, 0xF8|k, 0xFFFFFFF8|k} (27 values) x feature value 0..31 x create-argument with/without high bits x 2 languages, each through four entry points (create, load of the model image, decode_explicit and decode of the specification phrase) plus wrong-check-value variants (CHECKSUM must precede UNSUPPORTED); default state probed before the first enabling call; '
           '(2) rapidcheck histories of 1-6 enabling calls. Oracle: return = popcount(arg & 7); accepted iff f & ~(m|16) == 0 with m = last arg & 7, else UNSUPPORTED with no block left allocated; create stores exactly arg & 7; get_feature(q) = f & q & 7 for q in 0..31 and with high bits; is_encrypted = bit 4; features survive phrase/storage round trips; crypt toggles only bit 4. Every case non-trivial.',
      required_classes={'any': ['default-state', 'create:accepted', 'create:refused', 'load:accepted', 'load:refused', 'decode_explicit:accepted', 'decode_explicit:refused', 'decode:accepted', 'decode:refused', 'reserved-kdf-bit', 'history>1', 're-injection-between-enabling-and-use']},
@@ -125,7 +120,6 @@ prop('C10', src='props/c10_features.cpp',
 prop('C11', src='props/c11_birthday.cpp',
      plan={'quick': [{'variant': 'asan', 'workers': 16}, {'variant': 'rel', 'workers': 16, 'scale': 0.5}], 'thorough': [{'variant': 'asan', 'workers': 16}, {'variant': 'rel', 'workers': 16}]},
      variant_flags={'rel': {'cxxflags': '-DVERIF_WRAP', 'ldflags': '-Wl,--wrap=malloc,--wrap=free,--wrap=time'}},
-     exhaustive=True,
      rule='(1) exhaustive boundary set: EPOCH + k*STEP + {-1,0,+1} for k = 0..1024 (3075 clocks) and 17 special values (0, 1, EPOCH-1, 2^31 and 2^32 neighbours, 2^63, 2^64-2, 2^64-1, range end); (2) rapidcheck clocks (in-range, month boundaries +-2, before the epoch, beyond the range, uniform 64-bit) followed by a random chain of encode/decode, store/load, crypt, auto-decode; one case in eight uses a clock that answers t on the first reading and a failure value afterwards (the birthday must be that of a delivered reading); in the gcc -O2 build libc time() is interposed at link time (--wrap) and the same clock values are delivered through the built-in default clock (time entry NULL). '
           'Oracle (validity predicate): B = EPOCH + k*2629746 with k in 0..1023; in range B <= t < B + STEP; before the epoch and for 2^64-1 B = EPOCH; for every t >= EPOCH B <= t; B unchanged along the chain. Distinct = (t, chain, language).',
      required_classes={'any': ['in-range', 'before-epoch', 'after-range', 'time-error-value', 'step:crypt', 'step:store/load', 'step:encode/decode', 'default-clock(libc time interposed)']},
@@ -137,13 +131,12 @@ prop('C12', src='props/c12_crypt.cpp',
      rule='rapidcheck: (seed, password built from ASCII runs, accented Spanish/French/Korean/Japanese words in composed or decomposed form, compatibility characters, random scalar values, or empty; KDF mask fixed by the generator (weights on 00.., FF.., top bits of byte 18 set) or a keyed mix of (pw, salt); chain of 1-4 applications with the same / the other canonical form / a different password). '
           'Oracle per application: one KDF call with pw = NFKD(password) bytes and that length, salt "POLYSEED mask" 00 FF FF (16), 10000 iterations, key length 32; new store bytes = model (secret ^= mask[0..18], byte 18 &= 0x3F, encrypted bit toggled, rest unchanged, check value recomputed); even number of same-password applications restores the seed; the result loads, stores, encodes and decodes unchanged. '
           'Non-trivial = mask with a top bit of byte 18 set, or non-ASCII password, or chain >= 2. Passwords whose NFKD form exceeds the buffer are discarded (C14 covers them).',
-     required_classes={'any': ['mask-top-bits-of-byte18-set', 'password:non-ascii', 'password:empty', 'password:has-other-canonical-form', 'chain>=2', 'involution-checked', 'wrong-password-used']},
+     required_classes={'any': ['mask-top-bits-of-byte18-set', 'password:non-ascii', 'password:empty', 'password:nfkd>=256-bytes', 'password:has-other-canonical-form', 'chain>=2', 'involution-checked', 'wrong-password-used']},
      technique='property-based testing (rapidcheck) against a model of the mask application, with a recording/programmable KDF stub and real NFKD; involution and representation round-trips',
      level_text='Each generated application is compared with the model image and the recorded KDF arguments; involution and well-formedness follow per case. Sampling: exploration.')
 
 prop('C08', src='props/c08_prefix.cpp',
      plan={'quick': [{'variant': 'asan', 'workers': 16}], 'thorough': [{'variant': 'asan', 'workers': 16}, {'variant': 'rel', 'workers': 16}]},
-     exhaustive=True,
      rule='(i) exhaustive per word: every registered language x every word of the library\'s own index table (every 8th in the two Chinese lists in quick) x every prefix length 1..len x every subset of combining marks kept x NFD/NFC form, plus negative variants (prefix or word + a letter it does not continue with; word, 4-letter prefix with an extra combining mark inserted or appended, in NFD and NFC; in the languages that are not accent-blind also word/prefix with a foreign non-ASCII character), each placed at word 2 of a valid library phrase through the coin XOR; '
           '(ii) rapidcheck phrases with all 16 tokens independently varied in permitted ways (prefix >= 4 letters, accents kept per subset, NFC/NFD, ideographic separator for Japanese). '
           'Oracle = index-free reference matcher from the property text: A = {w : t equals w, or t is a prefix of w with >= 4 letters} (letters compared accent-blind in es/fr, exact match in ja/ko/zh); A = {own word} => OK and same seed, A empty => LANG, A = {other word} => same outcome as that word typed in full. '
@@ -183,7 +176,6 @@ prop('C14', src='props/c14_safety.cpp', src_by_variant={'fuzz': 'fuzz/fuzz_api.c
 prop('C13', src='props/c13_model.cpp', engine='rapidcheck (stateful)',
      plan={'quick': [{'variant': 'asan-nd', 'workers': 16}, {'variant': 'asan', 'workers': 16, 'part': 'exhaustive'}],
            'thorough': [{'variant': 'asan-nd', 'workers': 16}, {'variant': 'asan', 'workers': 16, 'scale': 0.3}, {'variant': 'rel', 'workers': 16}]},
-     exhaustive=True,
      rule='stateful model-based testing: sequences (length <= 60 quick / <= 200 thorough) over 14 operations on 4 slots - inject(set A|B, optional entries present or NULL), enable_features, create, load(image of a slot | wrong check | wrong header | reserved bit | padding bit | fresh seed), decode / decode_explicit (phrase just encoded from a slot: same coin, other coin, other language, abbreviated, trailing space, 17 tokens, 15 tokens, unknown word; or fixed malformed strings), crypt (6 passwords incl. composed/decomposed pair), encode, store, keygen, queries, free, free(NULL), arm allocation failure - '
           'plus exhaustive enumeration of all 66429 sequences of length <= 5 over 9 fixed-argument operations. Oracle: abstract model (enabled mask, current dependency set, slot -> (secret, birthday, features)): every status, phrase, KDF argument list and query equals the model\'s; after every step each live seed\'s store image equals the model image (canonical; other slots untouched), '
           'allocator ledger = live slots, no call lands in the non-current dependency set; fresh blocks are garbage-filled. Non-trivial = crypt followed by encode/store of that slot, or >= 2 live seeds, or a re-injection, or a failed constructor; distinct = fingerprint of the sequence.',
@@ -193,7 +185,6 @@ prop('C13', src='props/c13_model.cpp', engine='rapidcheck (stateful)',
 
 prop('C15', src='props/c15_alloc.cpp', engine='rapidcheck (stateful, fault injection)', level='fault_enumeration',
      plan={'quick': [{'variant': 'asan', 'workers': 16}, {'variant': 'asan-nd', 'workers': 16, 'scale': 0.3}], 'thorough': [{'variant': 'asan', 'workers': 16}, {'variant': 'asan-nd', 'workers': 16}]},
-     exhaustive=True,
      rule='fault enumeration: (1) cell scripts - every (entry point x outcome class) cell: create {ok, unsupported}, load {ok, format, checksum, unsupported}, decode and decode_explicit {ok, num-words, lang, mult-lang, checksum, unsupported} - each without a fault and with the 1st, 2nd or 3rd allocation request failing, x 40 language/coin variants, followed by free(NULL), a further create and an encode (subsequent calls behave normally); '
           '(2) rapidcheck operation sequences (create/load/decode/decode_explicit/crypt/encode/free/free(NULL)/enable_features/arm-failure) with a failure mask armed before about one call in six. Allocator: blocks come back filled with non-zero garbage; the k-th request after arming fails per bit mask. '
           'Oracle (ledger invariant after every call): no unknown or repeated pointer reaches free; free(NULL) calls no dependency; blocks allocated = seeds live (a failed call leaves none, a successful one exactly one, released exactly once by polyseed_free with the block wiped); if the allocator was asked and returned NULL the status is MEMORY and no seed is produced; following calls work. '
@@ -205,7 +196,6 @@ prop('C15', src='props/c15_alloc.cpp', engine='rapidcheck (stateful, fault injec
 prop('C18', src='props/c18_deps.cpp', engine='rapidcheck (stateful)',
      plan={'quick': [{'variant': 'asan-nd', 'workers': 16}, {'variant': 'rel', 'workers': 16}, {'variant': 'asan', 'workers': 16, 'scale': 0.03}], 'thorough': [{'variant': 'asan-nd', 'workers': 16}, {'variant': 'rel', 'workers': 16}, {'variant': 'asan', 'workers': 16, 'scale': 0.03}]},
      variant_flags={'rel': {'cxxflags': '-DVERIF_WRAP', 'ldflags': '-Wl,--wrap=malloc,--wrap=free,--wrap=time'}},
-     exhaustive=True,
      rule='(1) exhaustive: each of the 152 single-bit random-source outputs and their complements: the stored secret equals the delivered 19 bytes with the top two bits of the last dropped, 19 bytes are taken, the birthday is that of the injected clock; '
           '(2) rapidcheck injection histories: sequences in which about one operation in six is polyseed_inject with set A or B and each optional entry (time, alloc, free) present or NULL, the caller\'s struct overwritten with 0x41 right after the call, interleaved with create/load/decode/crypt/keygen/encode/free on 4 slots. '
           'Oracle: every dependency call during an operation lands in the set that is current (the other set\'s call counters do not move; the KDF of each set is keyed differently so a stale pointer also shows as a model mismatch); create takes 19 bytes in total from the current random source and asks the current clock; freed blocks are wiped; '
@@ -217,11 +207,10 @@ prop('C18', src='props/c18_deps.cpp', engine='rapidcheck (stateful)',
 
 prop('C17', src='props/c17_bound.cpp',
      plan={'quick': [{'variant': 'asan', 'workers': 16}], 'thorough': [{'variant': 'asan', 'workers': 16}, {'variant': 'rel', 'workers': 16}]},
-     exhaustive=True,
      rule='(i) exhaustive: the 2048 words of every registered language as the library itself emits them give per-position maxima (all indices; even indices only in word 3, whose low bit is the reserved feature bit; check word unconstrained) of three lengths - the decomposed phrase assembled inside encode (NFKD words + output separators), the output (NFC), the decomposed form the decoder handles - i.e. sound upper bounds over all 2048^15 word vectors, recorded in the evidence notes; '
           '(ii) witness search: all 15 data words = the longest word x 256 (quick) / 2048 (thorough) coins per language, then rapidcheck vectors drawn from the 1..40 longest words x coins. Oracle for every witness under ASan: encode returns strlen(output); all three lengths < POLYSEED_STR_SIZE; decode_explicit of the output is OK with an equal seed and the normaliser never truncated. '
           'Only concrete seeds are violations; a bound that is not below the buffer size without a witness is reported as a note. Non-trivial = witness whose longest form reaches 90% of its language\'s bound.',
-     required_classes={'any': ['witness>=90%-of-bound', 'witness:Korean', 'witness:Japanese', 'bound:Korean', 'exact-bound-witness:Korean', 'exact-bound-witness:Japanese', 'exact-bound-witness:English']},
+     required_classes={'any': ['witness>=90%-of-bound', 'witness:Korean', 'witness:Japanese', 'bound:Korean', 'exact-bound-witness:Korean', 'exact-bound-witness:Japanese', 'exact-bound-witness:English', 'composed-output>=360-bytes', 'decomposed>=500-bytes']},
      technique='exhaustive enumeration of word lengths (sound bound over all word vectors) + property-based witness search over extremal seeds (rapidcheck) under ASan',
      level_text='The bound is decided by enumeration of all 20480 words (a sound upper bound for every word vector) and confirmed by encoding/decoding extremal witness seeds under ASan. Exploration with an exhaustive bound computation.')
 
